@@ -84,13 +84,16 @@ def z2(x) -> int:
 
 
 class Tables:
-    def __init__(self):
+    def __init__(self, full=False):
         self.key2obj = {}
         self.alias = {}
         self.dyn = []
+        self.full = full  # full: real symbol keys and lineshape trees (for the in-Coq tie)
 
     def sym(self, s):
         full = mg.key_of(s)
+        if self.full:
+            return full
         if full not in self.alias:
             self.alias[full] = f"s{len(self.alias)}"
         k = self.alias[full]
@@ -98,6 +101,8 @@ class Tables:
         return k
 
     def placeholder(self, expr):
+        if self.full:
+            return "$tree:" + mg.ser_struct(expr)
         k = f"$dyn{len(self.dyn)}"
         self.dyn.append(expr)
         self.key2obj[k] = expr
@@ -202,9 +207,15 @@ def qlit(q):
 
 def node_lit(n):
     ls = "None" if n["LS"] is None else f"(Some (({n['LS'][0]})%Z, ({n['LS'][1]})%Z))"
+    if n["dyn"] is None:
+        dyn = "None"
+    elif n["dyn"].startswith("$tree:"):
+        dyn = "(Some " + n["dyn"][6:] + ")"
+    else:
+        dyn = "(Some (Sym " + mg.cstr(n["dyn"]) + "))"
     return ("{| nJ := (%d)%%Z; nM := (%d)%%Z; na_s := (%d)%%Z; na_l := (%d)%%Z; nb_s := (%d)%%Z; nb_l := (%d)%%Z; "
             "nphi := %s; ntheta := %s; nLS := %s; nH := %s; ndyn := %s |}") % (
-        n["J"], n["M"], n["as"], n["al"], n["bs"], n["bl"], mg.cstr(n["phi"]), mg.cstr(n["theta"]), ls, cs(n["H"]), cs(n["dyn"]))
+        n["J"], n["M"], n["as"], n["al"], n["bs"], n["bl"], mg.cstr(n["phi"]), mg.cstr(n["theta"]), ls, cs(n["H"]), dyn)
 
 
 def chain_lit(c):
